@@ -49,7 +49,9 @@ impl tokio::io::AsyncRead for AsyncPipe {
 
 pub fn recv(a: &[String]) {
     let stream = args_bytes(&a[1..2])[0].clone();
-    let max: usize = a[2].parse().unwrap();
+    // `<n>+`: after an error, receive is called once more (a caller may do that; it must not panic)
+    let again = a[2].ends_with('+');
+    let max: usize = a[2].trim_end_matches('+').parse().unwrap();
     let cuts: Vec<usize> = a[3..].iter().map(|c| c.parse().unwrap()).collect();
     let pipe = Pipe { segs: segments(&stream, &cuts), next: 0, out: Vec::new(), reads: 0 };
     if a[0] == "sync" {
@@ -61,7 +63,7 @@ pub fn recv(a: &[String]) {
             match c.receive() {
                 Ok(Some(r)) => show(&r),
                 Ok(None) => { println!("out=closed"); break; }
-                Err(e) => { show_err(&e); break; }
+                Err(e) => { show_err(&e); if again { println!("again={}", match c.receive() { Ok(Some(_)) => "response", Ok(None) => "closed", Err(_) => "error" }); } break; }
             }
         }
         println!("reads={}", c.into_inner().reads);
@@ -76,7 +78,7 @@ pub fn recv(a: &[String]) {
                 match c.receive().await {
                     Ok(Some(r)) => show(&r),
                     Ok(None) => { println!("out=closed"); break; }
-                    Err(e) => { show_err(&e); break; }
+                    Err(e) => { show_err(&e); if again { println!("again={}", match c.receive().await { Ok(Some(_)) => "response", Ok(None) => "closed", Err(_) => "error" }); } break; }
                 }
             }
             println!("reads={}", c.into_inner().0.reads);
